@@ -118,7 +118,7 @@ def gen_image(rng):
 def malformed_files(rng):
     """files that are not exactly header + image [+ well-formed tables]: the loader must still be a function of the
     file's bytes (and reject or load, never read stack residue, never hang).  -> [(tag, bytes or None)]"""
-    val = rng.randrange(2, 200)
+    val = rng.randrange(2, 120)            # below 124, the status this framework uses for its own time limit
     base = image(enc(3, val) + EXIT_AREG)
     dbg = with_debug_section(base, rng)
     out = []
